@@ -26,6 +26,7 @@ bool build_check(const std::string& prop, const std::string& tier, CheckSpec& s,
         s.rule = "case = (group, form, fault token(s), source element, model verdict) of one damaged-or-intact encoding delivered to both decoders; distinct by that tuple; non-trivial iff the fault actually changed the bytes delivered";
         s.batches.push_back(mk("enc", q ? 16 : 16, FAST, "single", {{"enumerate", 1}, {"allbits", q ? 0 : 1}}, "enumeration of the single-fault set: every named Byzantine substitution and flag manipulation, a flip in every byte (every bit in thorough), for identity/generator/multiples in both groups and both forms"));
         s.batches.push_back(mk("enc", q ? 1500 : 20000, ALL, "single", {}, "seeded sampling of elements, positions and double faults"));
+        s.batches.push_back(mk("enc", q ? 60 : 2000, FAST, "duo", {}, "two senders/receivers as concurrent caller threads under the seeded scheduler"));
         return true;
     }
     if (prop == "C11" || prop == "C12" || prop == "C13" || prop == "C14") {
@@ -34,6 +35,7 @@ bool build_check(const std::string& prop, const std::string& tier, CheckSpec& s,
         s.batches.push_back(mk("wkd", q ? 1800 : 120000, FAST, "single", {{"focus", focus}}, "histories biased towards the ops of this property; party runs on a seed-chosen replica through a seed-chosen view (C or C++ API)"));
         s.batches.push_back(mk("wkd", q ? 500 : 40000, FAST, "single", {{"focus", 0}}, "unbiased swarm mix"));
         s.batches.push_back(mk("wkd", q ? 48 : 3000, {"C/portable32"}, "single", {{"focus", focus}, {"maxops", 12}}, "32-bit-word replica (10x slower)"));
+        s.batches.push_back(mk("wkd", q ? 60 : 3000, FAST, "duo", {{"focus", focus}, {"maxops", 12}}, "two histories as concurrent caller threads under the seeded scheduler (preemption inside field multiplications)"));
         return true;
     }
     if (prop == "C15" || prop == "C17") {
@@ -43,6 +45,8 @@ bool build_check(const std::string& prop, const std::string& tier, CheckSpec& s,
         s.batches.push_back(mk("wkd", q ? 300 : 12000, FAST, "single", {{"focus", 15}}, "histories with marshalling hops and restarts in between the scheme operations"));
         s.batches.push_back(mk("lq", 8, {"A/bmi2-adx", "B/portable64"}, "single", {{"hopenum", 1}}, "LQ-IBE objects: every embedded element x every invalid-encoding kind, both forms, validating and not"));
         s.batches.push_back(mk("lq", q ? 200 : 8000, FAST, "single", {}, "LQ-IBE histories with marshalling hops"));
+        s.batches.push_back(mk("wkd", q ? 40 : 2000, FAST, "duo", {{"focus", 15}, {"maxops", 12}}, "marshalling hops by two concurrent caller threads"));
+        s.batches.push_back(mk("lq", q ? 40 : 2000, FAST, "duo", {}, "LQ-IBE marshalling by two concurrent caller threads"));
         if (prop == "C17") {
             s.batches.push_back(mk("sample", q ? 100 : 4000, ALL, "single", {}, "samplers, hashing, target-group operations under ASan+UBSan"));
             s.batches.push_back(mk("wkd", q ? 200 : 8000, ALL, "single", {{"focus", 0}}, "every API call sequence of the WKD-IBE properties under ASan+UBSan"));
@@ -58,6 +62,7 @@ bool build_check(const std::string& prop, const std::string& tier, CheckSpec& s,
         s.batches.push_back(mk("sample", q ? 3000 : 100000, FAST, "single", {{"focus", focus}}, "stream faults: rejection storms, boundary candidates (modulus-1, modulus, modulus+1, 0, masked-bit variants), digit = |x|-1 / |x|, tuples recombining to r-1, r, r+1, constant bytes, sign bytes"));
         s.batches.push_back(mk("sample", q ? 100 : 4000, {"C/portable32"}, "single", {{"focus", focus}}, "32-bit words: the exponent decomposition uses a hand-written long division there"));
         s.batches.push_back(mk("sample", q ? 100 : 3000, ALL, "crossrep", {{"focus", focus}}, "platform independence: identical results and identical stream consumption on every replica"));
+        s.batches.push_back(mk("sample", q ? 100 : 4000, FAST, "duo", {{"focus", focus}}, "two callers as concurrent threads under the seeded scheduler"));
         return true;
     }
     if (prop == "C16") {
@@ -65,12 +70,14 @@ bool build_check(const std::string& prop, const std::string& tier, CheckSpec& s,
         s.batches.push_back(mk("lq", q ? 3000 : 100000, FAST, "single", {}, "PKG, sender and receiver on a seed-chosen replica and view; master scalar delivered through the store with bit flips"));
         s.batches.push_back(mk("lq", q ? 64 : 3000, {"C/portable32"}, "single", {}, "32-bit words"));
         s.batches.push_back(mk("lq", q ? 64 : 3000, ALL, "crossrep", {}, "sender and receiver built with different back ends hash identical bytes"));
+        s.batches.push_back(mk("lq", q ? 80 : 3000, FAST, "duo", {}, "two LQ-IBE systems as concurrent caller threads under the seeded scheduler"));
         return true;
     }
     if (prop == "C08") {
         s.rule = "case = one product or single pairing over reused pair records: the shape string of the call (a = affine pair, p = prepared pair, 0 suffix = pair with an identity member, in list order); non-trivial iff the list has more than one pair or contains an identity";
         s.batches.push_back(mk("pairs", q ? 2500 : 80000, FAST, "single", {}, "long-lived record arrays reused across products: slices, re-pointing, re-preparing, identities, shared prepared points"));
         s.batches.push_back(mk("pairs", q ? 60 : 3000, {"C/portable32"}, "single", {}, "32-bit words"));
+        s.batches.push_back(mk("pairs", q ? 100 : 4000, FAST, "duo", {}, "two callers computing products concurrently under the seeded scheduler"));
         return true;
     }
     if (prop == "C03") {
